@@ -515,6 +515,13 @@ def unwrap(v, t):
         if v.t.nm != t.nm:
             raise TypeError("record mismatch %s vs %s" % (v.t, t))
         return t.dt.mk(*[unwrap(v.fields[fn], ft) for fn, ft in t.fields.items()])
+    if isinstance(t, TRec) and getattr(t, "dictlike", False) and isinstance(v, VDictRec):
+        # a dict literal with constant string keys stored where a dict-shaped record is expected
+        extra = [k for k in v.fields if k not in t.fields]
+        missing = [k for k in t.fields if k not in v.fields and k not in t.optkeys]
+        if extra or missing:
+            raise TypeError("dict literal does not have the shape of %s (extra %s, missing %s)" % (t.nm, extra, missing))
+        return t.dt.mk(*[unwrap(v.fields[fn], ft) if fn in v.fields else ft.none() for fn, ft in t.fields.items()])
     if isinstance(t, TList) and type(v).__name__ == "VEmptyList":
         dflt = z3.Const("dflt_" + "".join(c if c.isalnum() else "_" for c in t.elem.name), t.elem.sort())
         return t.dt.mk(z3.K(z3.IntSort(), dflt), z3.IntVal(0))
